@@ -137,6 +137,9 @@ pub const CATALOGUE: &[Entry] = &[
     e("zero_denominator_in_range_start", "@zz9{«1/0»-2}", E::RANGE_VALUES, Err_, Parse, false),
     e("zero_denominator_mixed_in_range", "#zz9{«1 1/0» - 2}", E::RANGE_VALUES, Err_, Parse, false),
     e("integer_too_big_in_range", "@zz9{1-«99999999999»/2}", E::RANGE_VALUES, Err_, Parse, false),
+    e("zero_denominator_before_spaced_unit", "@zz9{«1/0» cup}", E::ADVANCED_UNITS, Err_, Parse, false),
+    e("zero_denominator_mixed_before_spaced_unit", "@zz9{«1 1/0» l}", E::ADVANCED_UNITS, Err_, Parse, false),
+    e("zero_denominator_timer_spaced_unit", "~{«1/0» min}", E::ADVANCED_UNITS, Err_, Parse, false),
     e("empty_value", "@zz9{«%g»}", NONE, Err_, Parse, false),
     e("blank_value_after_lock", "@zz9{«= %g»}", NONE, Err_, Parse, false),
     e("blank_value_after_lock_no_unit", "@zz9{«=  »}", NONE, Err_, Parse, false),
@@ -203,6 +206,9 @@ pub const CATALOGUE: &[Entry] = &[
     e("timer_unit_not_time", "~{5%«kg»}", E::ADVANCED_UNITS, Err_, Analysis, false),
     e("timer_unit_unknown", "~{5%«foo»}", E::ADVANCED_UNITS, Err_, Analysis, false),
     e("timer_value_text", "~{«long»%min}", E::ADVANCED_UNITS, Err_, Analysis, false),
+    e("timer_range_unit_not_time", "~{10-15%«g»}", E::ADVANCED_UNITS.union(E::RANGE_VALUES), Err_, Analysis, false),
+    e("timer_range_unit_unknown", "~zz9{1 1/2-2%«foos»}", E::ADVANCED_UNITS.union(E::RANGE_VALUES), Err_, Analysis, false),
+    e("timer_range_spaced_unit_not_time", "~zz9{2-3 «cups»}", E::ADVANCED_UNITS.union(E::RANGE_VALUES), Err_, Analysis, false),
     e("note_on_timer", "~zz9{1%min}«(note)»", NONE, Warn, Parse, false),
     e("empty_unit", "@zz9{1«%»}", NONE, Warn, Parse, false),
     e("empty_metadata_value", ">> zz9:«»", NONE, Warn, Parse, true),
@@ -536,7 +542,7 @@ pub fn run(ctx: &mut Ctx) {
                 let placement = if is_inline { "inline" } else if pos == 0 { "first_block" } else if pos == host.len() { "last_block" } else { "between_blocks" };
                 check_injection(ctx, &mut ps, entry, &text, lo, hi, ext, placement);
                 // a converter without units knows no time unit either: the timer-unit entries hold there as well
-                if matches!(entry.name, "timer_unit_not_time" | "timer_unit_unknown" | "timer_value_text") {
+                if matches!(entry.name, "timer_unit_not_time" | "timer_unit_unknown" | "timer_value_text" | "timer_range_unit_not_time" | "timer_range_unit_unknown" | "timer_range_spaced_unit_not_time") {
                     check_injection_with(ctx, &mut ps, entry, &text, lo, hi, ext, placement, "empty");
                     ctx.count("timer_entries_under_the_empty_converter");
                 }
